@@ -214,6 +214,7 @@ class Check:
     # ---------------------------------------------------------------- lean
     def _lake(self, args, timeout=3000):
         mine = self._acquire()
+        self._cap_memory(False)
         try:
             p = subprocess.run(["lake"] + args, cwd=LEAN_DIR, capture_output=True, text=True, timeout=timeout)
             return p.returncode, p.stdout + p.stderr
@@ -229,6 +230,21 @@ class Check:
             if not keep_lock:
                 self._copy_driver()
                 self._release()
+                self._cap_memory(True)
+
+    def _cap_memory(self, on):
+        """while the implementation is being exercised: a request for an absurd amount of memory (a length read out of garbage) fails at once with
+        MemoryError instead of keeping the machine busy for minutes. The Lean subprocesses run uncapped."""
+        try:
+            import resource
+            soft, hard = resource.getrlimit(resource.RLIMIT_AS)
+            cap = 6 * 2**30
+            if on and (hard == resource.RLIM_INFINITY or hard > cap):
+                resource.setrlimit(resource.RLIMIT_AS, (cap, hard))
+            elif not on:
+                resource.setrlimit(resource.RLIMIT_AS, (hard, hard))
+        except Exception:
+            pass
 
     def _lean_props(self, module, theorems, extra_sources=()):
         """Build LasModel.Props.<module> and LasModel.Audit.<module>; one obligation per
@@ -345,6 +361,7 @@ class Check:
         return out
 
     def leanchecker(self, modules):
+        self._cap_memory(False)
         p = subprocess.run(["lake", "env", "leanchecker"] + modules, cwd=LEAN_DIR, capture_output=True, text=True)
         ok = p.returncode == 0
         self.oblige("leanchecker re-check of " + ",".join(modules), "recheck", ok, (p.stdout + p.stderr)[-300:])
